@@ -243,58 +243,58 @@ impl TestRunner {
             self.ram.read().unwrap().ram[self.cpu.get_program_counter() as usize]
         );
 
-        // Check active elements
-        let mut active_traces = vec![];
-        let mut active_assertions = vec![];
+        // Check active elements. They stay active, since the same location may be visited again (e.g. in a loop).
+        let pc = self.cpu.get_program_counter();
+        let registers = self.registers();
+        let status_register = self.cpu.get_status_register();
         let mut idx = 0;
         while idx < self.test_elements.len() {
-            let should_remove = match &self.test_elements[idx] {
-                TestElement::Assertion(e) => {
-                    e.snapshot.pc.as_u16() == self.cpu.get_program_counter()
-                }
-                TestElement::Trace(e) => e.snapshot.pc.as_u16() == self.cpu.get_program_counter(),
+            let is_active = match &self.test_elements[idx] {
+                TestElement::Assertion(e) => e.snapshot.pc.as_u16() == pc,
+                TestElement::Trace(e) => e.snapshot.pc.as_u16() == pc,
             };
-
-            if should_remove {
-                match self.test_elements.remove(idx) {
-                    TestElement::Assertion(a) => {
-                        active_assertions.push(a);
-                    }
-                    TestElement::Trace(t) => {
-                        active_traces.push(t);
-                    }
-                }
-            } else {
+            if !is_active {
                 idx += 1;
+                continue;
             }
-        }
 
-        for mut trace in active_traces {
-            let fmt = match trace.exprs.is_empty() {
-                true => format_cpu_details(&self.cpu, false),
-                false => {
-                    trace
+            let mut assertion_failed = false;
+            match &mut self.test_elements[idx] {
+                TestElement::Trace(trace) => {
+                    let fmt = match trace.exprs.is_empty() {
+                        true => format_cpu_details(&self.cpu, false),
+                        false => {
+                            trace
+                                .snapshot
+                                .symbols
+                                .ensure_cpu_symbols(registers.clone(), status_register);
+                            format_trace(trace, &self.ctx.lock().unwrap())
+                        }
+                    };
+                    self.formatted_traces.push(FormattedTrace(fmt));
+                }
+                TestElement::Assertion(assertion) => {
+                    assertion
                         .snapshot
                         .symbols
-                        .ensure_cpu_symbols(self.registers(), self.cpu.get_status_register());
-                    format_trace(trace, &self.ctx.lock().unwrap())
+                        .ensure_cpu_symbols(registers.clone(), status_register);
+                    let ctx = self.ctx.lock().unwrap();
+                    let evaluator = assertion.snapshot.get_evaluator(ctx.functions());
+                    let eval_result = evaluator
+                        .evaluate_expression(&assertion.expr, false)
+                        .ok()
+                        .flatten();
+                    if eval_result == Some(SymbolData::Number(0)) || eval_result.is_none() {
+                        assertion_failed = true;
+                    }
                 }
-            };
-            self.formatted_traces.push(FormattedTrace(fmt));
-        }
+            }
 
-        for mut assertion in active_assertions {
-            assertion
-                .snapshot
-                .symbols
-                .ensure_cpu_symbols(self.registers(), self.cpu.get_status_register());
-            let ctx = self.ctx.lock().unwrap();
-            let evaluator = assertion.snapshot.get_evaluator(ctx.functions());
-            let eval_result = evaluator
-                .evaluate_expression(&assertion.expr, false)
-                .ok()
-                .flatten();
-            if eval_result == Some(SymbolData::Number(0)) || eval_result.is_none() {
+            if assertion_failed {
+                let assertion = match self.test_elements.remove(idx) {
+                    TestElement::Assertion(assertion) => assertion,
+                    _ => unreachable!(),
+                };
                 let message = assertion.failure_message.clone().unwrap_or_else(|| {
                     let expr = format!("{}", &assertion.expr.data).trim().to_string();
                     format!("assertion failed: {}", expr)
@@ -314,6 +314,8 @@ impl TestRunner {
                     Box::new(failure),
                 ));
             }
+
+            idx += 1;
         }
 
         if self.ram.read().unwrap().ram[self.cpu.get_program_counter() as usize] == 0 {
@@ -390,7 +392,7 @@ impl TestRunner {
     }
 }
 
-fn format_trace(trace: Trace, ctx: &CodegenContext) -> String {
+fn format_trace(trace: &Trace, ctx: &CodegenContext) -> String {
     let mut eval = vec![];
     for expr in &trace.exprs {
         let evaluator = trace.snapshot.get_evaluator(ctx.functions());
